@@ -2,6 +2,7 @@ package main
 
 import (
 	"fmt"
+	"strings"
 	"go/token"
 	"go/types"
 
@@ -329,9 +330,43 @@ func (m *DBM) Clone() *DBM {
 // guardsToDBM adds every comparison guard that holds at block b to the matrix.
 // Returns the guards it could not translate (non-comparison conditions).
 func guardsToDBM(m *DBM, k *Keyer, b *ssa.BasicBlock) (untranslated []Guard) {
-	for _, g := range guardsAt(b) {
+	gs := guardsAt(b)
+	for _, g := range gs {
 		if !addCondToDBM(m, k, g.Cond, g.Pol) {
 			untranslated = append(untranslated, g)
+		}
+	}
+	// lengths are non-negative
+	for v := range m.idx {
+		if strings.HasPrefix(v, "len(") {
+			m.AddLE(Term{"", 0}, Term{v, 0})
+		}
+	}
+	// disequalities tighten a bound that is already known: x != c ∧ x >= c ⇒ x >= c+1 (and symmetrically)
+	for pass := 0; pass < 2; pass++ {
+		for _, g := range gs {
+			bo, ok := g.Cond.(*ssa.BinOp)
+			if !ok || !isIntegerType(bo.X.Type()) {
+				continue
+			}
+			if !((bo.Op == token.NEQ && g.Pol) || (bo.Op == token.EQL && !g.Pol)) {
+				continue
+			}
+			a, c := k.TermOf(bo.X), k.TermOf(bo.Y)
+			if strings.HasPrefix(a.Var, "len(") || strings.HasPrefix(c.Var, "len(") {
+				m.id(a.Var)
+				m.id(c.Var)
+				for v := range m.idx {
+					if strings.HasPrefix(v, "len(") {
+						m.AddLE(Term{"", 0}, Term{v, 0})
+					}
+				}
+			}
+			if m.EntailsLE(c, a) {
+				m.AddLE(Term{c.Var, c.K + 1}, a)
+			} else if m.EntailsLE(a, c) {
+				m.AddLE(Term{a.Var, a.K + 1}, c)
+			}
 		}
 	}
 	return
